@@ -1,6 +1,243 @@
-// Damage operators (C14) and helper-misuse programs (C15): filled in below.
-use crate::{Ctx, TreeSt};
+// Heap edits: damage operators (C14) and helper-misuse programs (C15).
+// Leaf-level, chain-level and arena-level edits use ONLY the crate's safe public API
+// (get_leaf_mut, set_leaf_next, allocate_leaf, deallocate_leaf, LeafNode::push_key /
+// push_value / take_keys / take_values / append_* / pop, new_root) - these are the calls
+// property C15 is about; branch-level edits and the root reference use the cfg-guarded
+// hooks (fields are pub(crate)).
+use crate::{Ctx, Map, TreeSt, VKey, VVal};
+use bplustree::{BranchNode, LeafNode, NodeRef, NULL_NODE};
+use std::marker::PhantomData;
 
-pub fn do_damage_op(_st: &mut TreeSt, toks: &[&str], _c: &mut Ctx) -> String {
-    format!("?unparsed {}", toks.join(" "))
+/// ids of the leaves met from the root (in order) and of the branches (pre-order);
+/// same traversal as the model's collect_leaf_ids / collect_branch_ids
+pub fn walk_ids(t: &Map) -> (Vec<u32>, Vec<u32>) {
+    let (_, root, _, ba) = t.verif_parts();
+    let (bs, bm, _) = ba.verif_raw();
+    let mut leaves = vec![];
+    let mut branches = vec![];
+    fn go(
+        r: &NodeRef<VKey, VVal>,
+        depth: usize,
+        bs: &[BranchNode<VKey, VVal>],
+        bm: &[bool],
+        leaves: &mut Vec<u32>,
+        branches: &mut Vec<u32>,
+    ) {
+        if depth > 200 {
+            return;
+        }
+        match r {
+            NodeRef::Leaf(i, _) => leaves.push(*i),
+            NodeRef::Branch(i, _) => {
+                let ix = *i as usize;
+                if *i != NULL_NODE && ix < bs.len() && bm[ix] {
+                    branches.push(*i);
+                    let (_, _, cs) = bs[ix].verif_fields();
+                    for c in cs {
+                        go(c, depth + 1, bs, bm, leaves, branches);
+                    }
+                }
+            }
+        }
+    }
+    go(&root, 0, bs, bm, &mut leaves, &mut branches);
+    (leaves, branches)
+}
+
+fn set_key_z(l: &mut LeafNode<VKey, VVal>, i: usize, z: i64) {
+    // safe public helpers only: take the key vector, edit, give it back
+    let mut ks = l.take_keys();
+    if i < ks.len() {
+        let id = ks[i].id;
+        ks[i] = VKey::new(z, id);
+    }
+    l.append_keys(&mut ks);
+}
+
+pub fn do_damage_op(st: &mut TreeSt, toks: &[&str], _c: &mut Ctx) -> String {
+    let p = |s: &str| -> i64 { s.parse().unwrap() };
+    let t = &mut st.t;
+    st.damaged = true;
+    let (leaves, branches) = walk_ids(t);
+    let leaf_at = |q: usize| leaves.get(q).copied();
+    let branch_at = |q: usize| branches.get(q).copied();
+    match toks[1] {
+        "LK" => {
+            if let Some(id) = leaf_at(p(toks[2]) as usize) {
+                if let Some(l) = t.get_leaf_mut(id) {
+                    set_key_z(l, p(toks[3]) as usize, p(toks[4]));
+                }
+            }
+        }
+        "BK" => {
+            if let Some(id) = branch_at(p(toks[2]) as usize) {
+                if let Some(b) = t.get_branch_mut(id) {
+                    let (_, ks, _) = b.verif_fields_mut();
+                    let i = p(toks[3]) as usize;
+                    if i < ks.len() {
+                        let kid = ks[i].id;
+                        ks[i] = VKey::new(p(toks[4]), kid);
+                    }
+                }
+            }
+        }
+        "LKC" => {
+            if let Some(id) = leaf_at(p(toks[2]) as usize) {
+                if let Some(l) = t.get_leaf_mut(id) {
+                    let (i, j) = (p(toks[3]) as usize, p(toks[4]) as usize);
+                    if let Some(z) = l.get_key(j).map(|k| k.z) {
+                        set_key_z(l, i, z);
+                    }
+                }
+            }
+        }
+        "BKC" => {
+            if let Some(id) = branch_at(p(toks[2]) as usize) {
+                if let Some(b) = t.get_branch_mut(id) {
+                    let (_, ks, _) = b.verif_fields_mut();
+                    let (i, j) = (p(toks[3]) as usize, p(toks[4]) as usize);
+                    if j < ks.len() && i < ks.len() {
+                        let (z, kid) = (ks[j].z, ks[i].id);
+                        ks[i] = VKey::new(z, kid);
+                    }
+                }
+            }
+        }
+        "LLK" => {
+            if let Some(id) = leaf_at(p(toks[2]) as usize) {
+                if let Some(l) = t.get_leaf_mut(id) {
+                    let n = l.keys_len();
+                    if n > 0 {
+                        set_key_z(l, n - 1, p(toks[3]));
+                    }
+                }
+            }
+        }
+        "LVPOP" => {
+            if let Some(id) = leaf_at(p(toks[2]) as usize) {
+                if let Some(l) = t.get_leaf_mut(id) {
+                    l.values_mut().pop();
+                }
+            }
+        }
+        "LKPOP" => {
+            if let Some(id) = leaf_at(p(toks[2]) as usize) {
+                if let Some(l) = t.get_leaf_mut(id) {
+                    let mut ks = l.take_keys();
+                    ks.pop();
+                    l.append_keys(&mut ks);
+                }
+            }
+        }
+        "LPUSH" => {
+            if let Some(id) = leaf_at(p(toks[2]) as usize) {
+                if let Some(l) = t.get_leaf_mut(id) {
+                    l.push_key(VKey::new(p(toks[3]), p(toks[4]) as u64));
+                    l.push_value(VVal::new(p(toks[5])));
+                }
+            }
+        }
+        "LPUSHK" => {
+            if let Some(id) = leaf_at(p(toks[2]) as usize) {
+                if let Some(l) = t.get_leaf_mut(id) {
+                    l.push_key(VKey::new(p(toks[3]), p(toks[4]) as u64));
+                }
+            }
+        }
+        "LTRUNC" => {
+            if let Some(id) = leaf_at(p(toks[2]) as usize) {
+                if let Some(l) = t.get_leaf_mut(id) {
+                    let n = p(toks[3]) as usize;
+                    let mut ks = l.take_keys();
+                    ks.truncate(n);
+                    l.append_keys(&mut ks);
+                    let mut vs = l.take_values();
+                    vs.truncate(n);
+                    l.append_values(&mut vs);
+                }
+            }
+        }
+        "BTRUNC" => {
+            if let Some(id) = branch_at(p(toks[2]) as usize) {
+                if let Some(b) = t.get_branch_mut(id) {
+                    let n = p(toks[3]) as usize;
+                    let (_, ks, cs) = b.verif_fields_mut();
+                    ks.truncate(n);
+                    cs.truncate(n + 1);
+                }
+            }
+        }
+        "BCPOP" => {
+            if let Some(id) = branch_at(p(toks[2]) as usize) {
+                if let Some(b) = t.get_branch_mut(id) {
+                    b.verif_fields_mut().2.pop();
+                }
+            }
+        }
+        "BCDUP" => {
+            if let Some(id) = branch_at(p(toks[2]) as usize) {
+                if let Some(b) = t.get_branch_mut(id) {
+                    let cs = b.verif_fields_mut().2;
+                    if let Some(last) = cs.last().copied() {
+                        cs.push(last);
+                    }
+                }
+            }
+        }
+        "BREF" => {
+            if let Some(id) = branch_at(p(toks[2]) as usize) {
+                if let Some(b) = t.get_branch_mut(id) {
+                    let cs = b.verif_fields_mut().2;
+                    let i = p(toks[3]) as usize;
+                    let nid = p(toks[4]) as u32;
+                    if i < cs.len() {
+                        cs[i] = match cs[i] {
+                            NodeRef::Leaf(_, _) => NodeRef::Leaf(nid, PhantomData),
+                            NodeRef::Branch(_, _) => NodeRef::Branch(nid, PhantomData),
+                        };
+                    }
+                }
+            }
+        }
+        "ROOT" => {
+            let nid = p(toks[3]) as u32;
+            *t.verif_root_mut() = if toks[2] == "L" {
+                NodeRef::Leaf(nid, PhantomData)
+            } else {
+                NodeRef::Branch(nid, PhantomData)
+            };
+        }
+        "LNEXT" => {
+            if let Some(id) = leaf_at(p(toks[2]) as usize) {
+                let nx: u32 = if toks[3] == "NULL" {
+                    NULL_NODE
+                } else if let Some(q) = toks[3].strip_prefix('p') {
+                    leaf_at(q.parse().unwrap()).unwrap_or(NULL_NODE)
+                } else {
+                    p(toks[3]) as u32
+                };
+                t.set_leaf_next(id, nx);
+            }
+        }
+        "ORPHANL" => {
+            let cap = t.verif_parts().0;
+            t.allocate_leaf(LeafNode::new(cap));
+        }
+        "ORPHANB" => {
+            let cap = t.verif_parts().0;
+            t.allocate_branch(BranchNode::new(cap));
+        }
+        "FREEL" => {
+            if let Some(id) = leaf_at(p(toks[2]) as usize) {
+                t.deallocate_leaf(id);
+            }
+        }
+        "FREEB" => {
+            if let Some(id) = branch_at(p(toks[2]) as usize) {
+                t.deallocate_branch(id);
+            }
+        }
+        _ => return format!("?unparsed {}", toks.join(" ")),
+    }
+    "edited".into()
 }
